@@ -45,7 +45,8 @@ def gen_loc_forest(rng):
                 # the other attributes of the location class (expression form only): decoded by attribute name when the form is a block
                 at = rng.choice(LOC_CLASS)
             if k < 0.5 or at == "data_member_location":
-                ops, exp = dwloc.gen_expr(rng, version, types)
+                # (an expression may be empty: still one element, of length 0)
+                ops, exp = dwloc.gen_expr(rng, version, types, n=(0 if rng.random() < 0.08 else None))
                 form = "exprloc" if version >= 4 else rng.choice(["block1", "block1", "block2", "block4", "block"])
                 d.attrs.append((at, form, ops))
                 specs.append((d, u, "expr", (ops, exp, at)))
@@ -54,7 +55,7 @@ def gen_loc_forest(rng):
                 entries, exps = [], []
                 pos = rng.randint(0, 16)
                 for j in range(n):
-                    ops, exp = dwloc.gen_expr(rng, version, types, n=rng.randint(1, 4))
+                    ops, exp = dwloc.gen_expr(rng, version, types, n=rng.choice([0, 1, 1, 2, 2, 3, 4]))
                     if rng.random() < 0.25:
                         nb = rng.choice([0x2000, 0x700000, 1 << 33])
                         entries.append(("base", nb))
